@@ -13,15 +13,15 @@ import (
 
 // SCMP numbers from doc/protocols/scmp.rst
 const (
-	scmpDestUnreach   = 1
-	scmpPktTooBig     = 2
-	scmpParamProblem  = 4
-	scmpExtIfDown     = 5
-	scmpIntConnDown   = 6
-	scmpEchoReq       = 128
-	scmpEchoRep       = 129
-	scmpTraceReq      = 130
-	scmpTraceRep      = 131
+	scmpDestUnreach  = 1
+	scmpPktTooBig    = 2
+	scmpParamProblem = 4
+	scmpExtIfDown    = 5
+	scmpIntConnDown  = 6
+	scmpEchoReq      = 128
+	scmpEchoRep      = 129
+	scmpTraceReq     = 130
+	scmpTraceRep     = 131
 	// parameter problem codes
 	codeInvalidPktSize    = 19
 	codeInvalidSrcAddr    = 33
@@ -247,7 +247,7 @@ func regionOf(p *refmodel.Packet, i int) string {
 // checkC08Output: whatever the router emits must be a well-formed SCION packet.
 func (w *World) checkC08Output(r *core.Run, rec *HopRec) {
 	if rec.Panic != "" {
-		r.Fail("no-panic", "panic:"+rec.Router.Name, "%s %s panicked processing %x: %s", rec.Router.AS.IA, rec.Router.Name, rec.InRaw, rec.Panic)
+		r.Fail("no-panic", "panic:"+rec.PanicSite, "%s %s panicked at %s processing %x (ingress %v): %s", rec.Router.AS.IA, rec.Router.Name, rec.PanicSite, rec.InRaw, rec.In, rec.Panic)
 		return
 	}
 	if rec.Res.Disposition != router.VerifForward {
